@@ -188,3 +188,35 @@ Section Tlv.
     | HUnsup => SUnsup
     end.
 End Tlv.
+
+(** ** Well-formed values and canonical form, generic in the header layout *)
+Section TlvWf.
+  (** which headers the layout can write faithfully (integer ranges, length limits) *)
+  Variable wf_head : head -> bool.
+
+  Fixpoint wfv (v : value) : bool :=
+    match v with
+    | VNull => wf_head HNull
+    | VBool b => wf_head (HBool b)
+    | VInt k z => wf_head (HInt k z)
+    | VFloat f => wf_head (HFloat f)
+    | VStr s => wf_head (HStr (len s))
+    | VBin s => wf_head (HBin (len s))
+    | VList l => wf_head (HArr (len l)) && forallb wfv l
+    | VDict d =>
+        wf_head (HMap (len d)) && keys_nodup (map fst d)
+        && forallb (fun kv => wf_head (HStr (len (fst kv))) && wfv (snd kv)) d
+    end.
+End TlvWf.
+
+Section CanonBy.
+  (** what reading back a written header yields *)
+  Variable ch : head -> head.
+  Fixpoint canon_by (v : value) : value :=
+    match v with
+    | VInt k z => match ch (HInt k z) with HInt k' z' => VInt k' z' | _ => v end
+    | VList l => VList (map canon_by l)
+    | VDict d => VDict (map (fun kv => (fst kv, canon_by (snd kv))) d)
+    | _ => v
+    end.
+End CanonBy.
